@@ -335,6 +335,97 @@ def r15_6(ctx, counts) -> RuleResult:
     return res
 
 
+def r15_7(ctx, counts) -> RuleResult:
+    """map keys are compared with the same-key relation, not with =="""
+    model: Model = ctx.model
+    res = RuleResult(
+        'R15.7', 'SAME-KEY-COMPARISON',
+        'Two map keys are the same key under op:same-key, for which NaN is the same key as NaN; '
+        'Python\'s == says NaN != NaN. In the functions of the map namespace and in XPathMap a '
+        'key obtained by iterating the entries of a map (the first target of a loop or '
+        'comprehension over `.items(..)`, or the target over `.keys(..)`) is compared with '
+        'another key through helpers.equal / not_equal, never with == / != unless the NaN case '
+        'of the other operand was handled before (a dominating negative fact on math.isnan). '
+        '(map:remove and '
+        'map:put did; map:find did not: map:find(map{xs:double("NaN"): 1}, xs:double("NaN")) '
+        'was the empty array.)')
+    funcs = set()
+    for rec in ctx.reg.all_records():
+        ns = rec.get(model, 'namespace')
+        if isinstance(ns, str) and ns.endswith('/xpath-functions/map'):
+            for slot in ('evaluate', 'select'):
+                ref = rec.method(slot)
+                if ref is not None and ref.func is not None and ref.origin != 'class':
+                    funcs.add(ref.func)
+    cls = model.find_class('XPathMap')
+    funcs |= {f for f in cls.module.functions.values() if f.cls is cls}
+    # nested helpers
+    funcs |= {g for f in list(funcs) for g in f.module.functions.values() if g.parent is f}
+    n = 0
+    for f in sorted(funcs, key=lambda q: q.key):
+        keys: set[str] = set()
+        for x in walk_local(f.node):
+            gens = []
+            if isinstance(x, ast.For):
+                gens = [(x.target, x.iter)]
+            elif isinstance(x, (ast.ListComp, ast.SetComp, ast.DictComp, ast.GeneratorExp)):
+                gens = [(g.target, g.iter) for g in x.generators]
+            for tgt, it in gens:
+                if isinstance(it, ast.Call) and isinstance(it.func, ast.Attribute):
+                    if it.func.attr == 'items' and isinstance(tgt, ast.Tuple) and tgt.elts \
+                            and isinstance(tgt.elts[0], ast.Name):
+                        keys.add(tgt.elts[0].id)
+                    elif it.func.attr == 'keys' and isinstance(tgt, ast.Name):
+                        keys.add(tgt.id)
+        if not keys:
+            continue
+        cfg_facts = None
+        for x in walk_local(f.node):
+            if isinstance(x, ast.Compare) and len(x.ops) == 1 \
+                    and isinstance(x.ops[0], (ast.Eq, ast.NotEq)):
+                sides = [x.left, x.comparators[0]]
+                if any(isinstance(e, ast.Name) and e.id in keys for e in sides) and not any(
+                        isinstance(e, ast.Constant) for e in sides):
+                    n += 1
+                    # NaN dealt with before: a dominating negative fact on math.isnan(<operand>)
+                    if cfg_facts is None:
+                        from ..engine.cfg import CFG as _CFG
+                        from ..engine.dataflow import branch_facts as _bf
+                        _c = _CFG(f.node)
+                        cfg_facts = (_c, _bf(_c))
+                    holder = None
+                    for nd in cfg_facts[0].nodes:
+                        if nd.ast is not None and nd.kind in ('stmt', 'test') and any(
+                                y is x for e2 in nd.exprs() for y in ast.walk(e2)):
+                            holder = nd
+                            break
+                    fs = cfg_facts[1][holder.id] if holder is not None else frozenset()
+                    others = [stmt_text(e) for e in sides
+                              if not (isinstance(e, ast.Name) and e.id in keys)]
+                    if any(fa.startswith('-') and any(f'math.isnan({o})' in fa for o in others)
+                           for fa in fs):
+                        res.instances.append(f'{f.key}: L{x.lineno} `{stmt_text(x)}` after the '
+                                             f'NaN case was handled')
+                        res.ok()
+                        continue
+                    res.instances.append(f'{f.key}: L{x.lineno} `{stmt_text(x)}` on a map key')
+                    res.fail(finding('R15.7', f, x, f'key compared with {stmt_text(x)[:20]}',
+                                     f'`{stmt_text(x)[:50]}` compares a key of the map with '
+                                     f'Python equality: a NaN key never equals the NaN searched '
+                                     f'for (op:same-key treats them as the same key)'))
+        helper_calls = [c for c in walk_local(f.node) if isinstance(c, ast.Call)
+                        and dotted(c.func) in ('equal', 'not_equal')
+                        and any(isinstance(a, ast.Name) and a.id in keys for a in c.args)]
+        for c in helper_calls:
+            n += 1
+            res.instances.append(f'{f.key}: L{c.lineno} `{stmt_text(c)[:40]}` same-key helper')
+            res.ok()
+    counts['map_key_comparisons'] = n
+    if n < 3:
+        raise AnalysisError(f'map key comparisons located: {n} < 3')
+    return res
+
+
 def run(ctx) -> dict:
     counts: dict[str, int] = {}
     results = [r15_1(ctx, counts), r15_2(ctx, counts)]
@@ -348,6 +439,7 @@ def run(ctx) -> dict:
     results.append(r3)
     results.append(r15_4(ctx, counts))
     results.append(r15_6(ctx, counts))
+    results.append(r15_7(ctx, counts))
     return {
         'results': results, 'counts': counts,
         'explanation':
